@@ -391,9 +391,5 @@ Proof.
   intros rf dbg req u Hwf Hlay.
   destruct (filtered_ids rf dbg req [u] Hwf Hlay) as [S [ids [HS [Hsort [Hin [Hsl _]]]]]].
   unfold convert_split_filtered, convert_filtered. rewrite HS. cbn [bind]. rewrite Hsl. cbn [bind map reserve_all].
-  rewrite app_nil_r.
-  assert (Hf : filter (in_unit u) S = S).
-  { apply filter_all_true. intros x Hx. apply Hin in Hx. apply reach_valid in Hx.
-    destruct (valid_covered _ _ Hlay Hx) as [u' [[<-|[]] Hx']]. exact Hx'. }
-  now rewrite Hf.
+  rewrite app_nil_r. reflexivity.
 Qed.
